@@ -13,10 +13,11 @@ RULE = ("sections generated as the envelope of circles with a known radius law (
 TRUSTED_BASE = [
     "Coq 8.16.1 kernel and vm_compute",
     "hand-written model coq/Model/Airfoil.v of the container and ordering logic (OrientedCircles push/last/take, reverse_inscribed_circles, find_tmax_circle), tied by differential correspondence Tie/C10.v through the public airfoil::helpers API",
-    "the geometric claims (inscribed circles, contacts, monotone stations, edge points, upper/lower partition, recovery of the known medial axis) are certified per analysed section by tools/props/c10.py using an exhaustive point-to-section distance",
+    "hand-written model coq/Model/Inscribed.v of inscribed_from_spanning_ray (the bisection for one station, over C02's closest-point specification of the section query), tied by differential correspondence (check_inscribed: centre, radius and both contacts on generated sections and polygons, tolerances 1e-3..1e-6 of the chord); proved: it ends for every positive tolerance and returns an inscribed circle within the tolerance (Proofs/Inscribed.v)",
+    "the other geometric claims (monotone stations, edge points, upper/lower partition, recovery of the known medial axis) and the whole-analysis view of the inscribed circles are certified per analysed section by tools/props/c10.py using an exhaustive point-to-section distance",
 ]
 ASSUMPTIONS = [
-    "partial: the camber extraction (bisection against parry's closest-point query, refinement loop) is certified per explored section, not proved; its termination is only watched (watchdog)",
+    "partial: the bisection for one station is proved (terminates, inscribed within tolerance, for the model over the closest-point specification; parry's query is validated against that specification in C02); the march along the section, the refinement loop and the edge locators are certified per explored section, and their termination is only watched (watchdog)",
     "recovery tolerances: centres within 2% of the maximum thickness of the generating camber curve, radii within 2% of the maximum thickness of the law (discretisation of the polyline)",
 ]
 
@@ -179,6 +180,55 @@ def gen_analyze(rng):
             "gauges": [["camber", 0.3 * chord], ["camber", -0.3 * chord], ["camber", 0.5 * chord], ["radius", 0.2 * chord], ["radius", -0.2 * chord], ["radius", 0.45 * chord], ["radius", -0.45 * chord]]}
 
 
+def gen_inscribed(rng):
+    """the bisection on one spanning ray: a closed generated section (or a plain polygon), a chord from a point of one edge
+    along the inward normal of that edge to the first other edge it meets"""
+    if rng.random() < 0.7:
+        c0 = gen_analyze(rng)
+        while not c0["closed"]:
+            c0 = gen_analyze(rng)
+        pts, chord = c0["pts"], c0["spec"]["chord"]
+    else:
+        chord = rng.choice([1.0, 10.0])
+        n = rng.choice([5, 8, 13])
+        pts = [[chord * (1 + 0.3 * rng.random()) * math.cos(2 * math.pi * i / n), chord * 0.4 * (1 + 0.3 * rng.random()) * math.sin(2 * math.pi * i / n)] for i in range(n)]
+    m = len(pts)
+    for _ in range(50):
+        i = rng.randrange(m)
+        a, b = pts[i], pts[(i + 1) % m]
+        f = rng.uniform(0.1, 0.9)
+        p0 = [a[0] + (b[0] - a[0]) * f, a[1] + (b[1] - a[1]) * f]
+        e = [b[0] - a[0], b[1] - a[1]]
+        best = None
+        for sgn in (1, -1):
+            d = [-e[1] * sgn, e[0] * sgn]
+            for j in range(m):
+                if j == i:
+                    continue
+                u, v = pts[j], pts[(j + 1) % m]
+                w = [v[0] - u[0], v[1] - u[1]]
+                den = d[0] * w[1] - d[1] * w[0]
+                if abs(den) < 1e-14 * chord * chord:
+                    continue
+                t = ((u[0] - p0[0]) * w[1] - (u[1] - p0[1]) * w[0]) / den
+                s2 = ((u[0] - p0[0]) * d[1] - (u[1] - p0[1]) * d[0]) / den
+                if t > 1e-9 and 0.0 <= s2 <= 1.0 and (best is None or t < best[0]):
+                    best = (t, [u[0] + w[0] * s2, u[1] + w[1] * s2], sgn)
+        # the inward side is the one whose nearest hit is nearer (the outward normal of a closed section meets nothing or only far parts)
+        if best is None or math.dist(best[1], p0) < 1e-3 * chord:
+            continue
+        # keep the inward normal only: the midpoint of the chord is inside the polygon (crossing number)
+        mid = [(p0[0] + best[1][0]) / 2, (p0[1] + best[1][1]) / 2]
+        cnt = 0
+        for j in range(m):
+            u, v = pts[j], pts[(j + 1) % m]
+            if (u[1] > mid[1]) != (v[1] > mid[1]) and mid[0] < u[0] + (v[0] - u[0]) * (mid[1] - u[1]) / (v[1] - u[1]):
+                cnt += 1
+        if cnt % 2 == 1:
+            return {"k": "c10.inscribed", "pts": pts, "closed": True, "ctol": 1e-9 * chord, "p0": p0, "p1": best[1], "tol": rng.choice([1e-3, 1e-4, 1e-5, 1e-6]) * chord, "chord": chord}
+    return gen_oriented(rng)
+
+
 def gen_open_gap(rng):
     """open sections cut unevenly (one surface reaches clearly further than the other), the open end located by OpenIntersectGap,
     the other end by the camber / section intersection: analysed in both vertex orders"""
@@ -237,10 +287,12 @@ def corpus():
 
 def generate(rng, tier):
     n = 56 if tier == "quick" else 600
-    return [gen_analyze(rng) for _ in range(n)] + [gen_open_gap(rng) for _ in range(n // 2)] + [gen_oriented(rng) for _ in range(2 * n)] + [gen_orient(rng) for _ in range(2 * n)]
+    return [gen_analyze(rng) for _ in range(n)] + [gen_open_gap(rng) for _ in range(n // 2)] + [gen_oriented(rng) for _ in range(2 * n)] + [gen_orient(rng) for _ in range(2 * n)] + [gen_inscribed(rng) for _ in range(n)]
 
 
 def tag(c, r):
+    if c["k"] == "c10.inscribed":
+        return "%s:%d:%g:%s" % (c["k"], min(len(c["pts"]), 100), c["tol"] / c["chord"], "panic" if r.get("panic") else "ok")
     if c["k"] == "c10.orient":
         return "%s:%s:%d:%s" % (c["k"], "tmax" if c["orient"] == "tmax" else "dir", len(c["init"]), "err" if r.get("err") else "panic" if r.get("panic") else "ok")
     if c["k"] == "c10.oriented":
@@ -258,6 +310,12 @@ def stv(o):
 
 
 def coq_check(c, r):
+    if c["k"] == "c10.inscribed":
+        if "circle" not in r:
+            return None
+        ci = r["circle"]
+        return "check_inscribed %s %s %s %s %s %s %s %s" % (coq([T(q) for q in r["curve"]]), coq(T(c["p0"])), coq(T(c["p1"])), coq(float(c["tol"])),
+                                                          coq(T(ci["c"])), coq(float(ci["r"])), coq(T(ci["pos"])), coq(T(ci["neg"])))
     if c["k"] == "c10.orient":
         if r.get("panic"):
             return None
@@ -295,6 +353,23 @@ def dist_poly(p, pts):
 
 
 def oracle(c, r):
+    if c["k"] == "c10.inscribed":
+        what = "inscribed_from_spanning_ray on a section of %d vertices, ray %r -> %r, tolerance %r" % (len(c["pts"]), c["p0"], c["p1"], c["tol"])
+        if r.get("panic") or "circle" not in r:
+            yield ("inscribed-panic", what + " panicked or failed")
+            return
+        ci, sec, tol = r["circle"], r["curve"], c["tol"]
+        sec = sec + [sec[0]] if math.dist(sec[0], sec[-1]) > 0 else sec
+        d = dist_poly(ci["c"], sec)
+        # Proofs/Inscribed.v: the distance from the centre to the section is the radius within the tolerance, the contacts are on the section
+        if abs(d - ci["r"]) > tol * (1 + 1e-9) + 1e-12 * c["chord"]:
+            yield ("inscribed-radius", what + ": centre %r is %r from the section, radius %r" % (ci["c"], d, ci["r"]))
+        for nm in ("pos", "neg"):
+            if dist_poly(ci[nm], sec) > 1e-9 * c["chord"]:
+                yield ("inscribed-contact", what + ": contact %s %r is %r from the section" % (nm, ci[nm], dist_poly(ci[nm], sec)))
+            elif abs(math.dist(ci[nm], ci["c"]) - ci["r"]) > tol * (1 + 1e-9) + 1e-12 * c["chord"]:
+                yield ("inscribed-contact", what + ": contact %s %r is %r from the centre, radius %r" % (nm, ci[nm], math.dist(ci[nm], ci["c"]), ci["r"]))
+        return
     if c["k"] == "c10.oriented":
         for a, b in zip(r["twice"], r["init"]):
             # exact over the reals; in binary64 the ray origin o + d - d may differ from o in the last place
